@@ -234,6 +234,10 @@ func main() {
 		ks.SetOps(iana.KeyOperationSign, iana.KeyOperationVerify)
 		kc := must(ecdsa.GenerateKey(iana.AlgorithmES256))
 		kc.SetOps(iana.KeyOperationSign, iana.KeyOperationVerify)
+		// the signature keys come without the optional alg member (as keys from other implementations do): the registry
+		// look-up infers the algorithm from the curve on every call
+		delete(ks, iana.KeyParameterAlg)
+		delete(kc, iana.KeyParameterAlg)
 		wire := [][]byte{must(key.MarshalCBOR(kh)), must(key.MarshalCBOR(kg)), must(key.MarshalCBOR(ks)), must(key.MarshalCBOR(kc))}
 		decode := func() []key.Key {
 			out := make([]key.Key, len(wire))
@@ -268,24 +272,31 @@ func main() {
 		}
 		for rd := 0; rd < rounds; rd++ {
 			shared := decode()
-			ref := use(decode(), rd)
 			var wg sync.WaitGroup
 			var mu sync.Mutex
+			var got [][]byte
 			start := make(chan struct{})
 			for g := 0; g < *G; g++ {
 				wg.Add(1)
 				go func() {
 					defer wg.Done()
 					<-start
-					if !bytes.Equal(use(shared, rd), ref) {
-						mu.Lock()
-						coldBad++
-						mu.Unlock()
-					}
+					res := use(shared, rd)
+					mu.Lock()
+					got = append(got, res)
+					mu.Unlock()
 				}()
 			}
 			close(start)
 			wg.Wait()
+			// the sequential reference comes last: in the first round nothing in this process has looked these kinds of
+			// key up before the goroutines do (a look-up that writes on first use is only then a concurrent write)
+			ref := use(decode(), rd)
+			for _, res := range got {
+				if !bytes.Equal(res, ref) {
+					coldBad++
+				}
+			}
 		}
 		if coldBad > 0 {
 			fmt.Printf("MISMATCH task=cold-factories count=%d\n", coldBad)
@@ -390,6 +401,50 @@ func main() {
 		}
 		return []byte("ok")
 	}})
+
+	// the Validator owns its options: the caller goes on using (rewriting) the ValidatorOpts value it was built from while
+	// other goroutines validate
+	if selected("validator-opts") {
+		opts := &cwt.ValidatorOpts{ExpectedIssuer: "iss", ExpectedAudience: "aud-0", ClockSkew: time.Minute, FixedNow: time.Unix(1700000000, 0)}
+		v := must(cwt.NewValidator(opts))
+		good := &cwt.Claims{Issuer: "iss", Audience: "aud-0", Expiration: 1700003600}
+		other := &cwt.Claims{Issuer: "iss", Audience: "aud-1", Expiration: 1700003600}
+		var wg sync.WaitGroup
+		var mu sync.Mutex
+		bad := 0
+		stop := make(chan struct{})
+		for g := 0; g < *G; g++ {
+			wg.Add(1)
+			go func() {
+				defer wg.Done()
+				for i := 0; i < *N*20; i++ {
+					if v.Validate(good) != nil || v.Validate(other) == nil {
+						mu.Lock()
+						bad++
+						mu.Unlock()
+					}
+				}
+			}()
+		}
+		go func() {
+			for i := 0; ; i++ {
+				select {
+				case <-stop:
+					return
+				default:
+				}
+				opts.ExpectedAudience = fmt.Sprintf("aud-%d", i%3)
+				opts.ClockSkew = time.Duration(i%5) * time.Second
+				cwt.NewValidator(opts)
+			}
+		}()
+		wg.Wait()
+		close(stop)
+		if bad > 0 {
+			fmt.Printf("MISMATCH task=validator-opts count=%d\n", bad)
+			coldBad += bad
+		}
+	}
 
 	// a validator without FixedNow (the production configuration): it reads the clock on every call; claims far from
 	// "now" on either side so that the verdicts do not depend on when the run happens
